@@ -460,6 +460,23 @@ def _stmt_end(toks, k):
     return None
 
 
+def rewrite_R14(toks, log):
+    """E.into_dyn()  ->  E : the logical shim has no static dimension type, so the conversion to dynamic rank is the identity on it
+    (same shape, same elements: validated on the real ndarray by the shim scenario, `into_dyn[..]`)"""
+    out, k = [], 0
+    while k < len(toks):
+        t = toks[k]
+        if t.kind == "punct" and t.text == ".":
+            s = [k + x for x in _sigidx(toks[k:k + 8])]
+            if len(s) >= 4 and toks[s[1]].text == "into_dyn" and toks[s[2]].text == "(" and toks[s[3]].text == ")":
+                log.append("R14 .into_dyn() dropped at line %d" % t.line)
+                k = s[3] + 1
+                continue
+        out.append(t)
+        k += 1
+    return out
+
+
 def rewrite_R8(toks, log):
     """A[I] -= E;  ->  A.set(I, A[I] - (E));      (compound assignment through an index; likewise += *= /=)"""
     out = []
@@ -571,10 +588,31 @@ def rewrite_R10(toks, log, u, unit_name):
             raise Undecided("anchor lost: opaque-arm %r matches %d places in %s" % (anchor, len(hits), unit_name))
         a = hits[0]
         ob = sigk[a + len(want)]
-        if toks[ob].text != "{":
-            raise Undecided("R10: arm %r of %s has no block body" % (anchor, unit_name))
-        cb = match_close(toks, ob)
         from rustlex import lex as _lex
+        if toks[ob].text != "{":
+            # expression arm `PAT => EXPR,` : the body runs up to the comma at nesting depth 0
+            depth, q = 0, ob
+            while q < len(toks):
+                tx = toks[q].text if toks[q].kind == "punct" else ""
+                if tx in ("(", "[", "{"):
+                    depth += 1
+                elif tx in (")", "]", "}"):
+                    if depth == 0:
+                        break
+                    depth -= 1
+                elif tx == "," and depth == 0:
+                    break
+                q += 1
+            if q >= len(toks) or toks[q].text != ",":
+                raise Undecided("R10: arm %r of %s has no block body and no terminating comma" % (anchor, unit_name))
+            nl = text_of(toks[ob:q]).count("\n")
+            rep = [Tok(x.kind, x.text, toks[ob].line) for x in _lex("{ opaque_arm() }")]
+            if nl:
+                rep.append(Tok("ws", "\n" * nl, toks[ob].line))
+            log.append("R10 %s: arm `%s` (lines %d-%d) dropped: no claim about executions entering it" % (unit_name, anchor, toks[ob].line, toks[q - 1].line))
+            toks = toks[:ob] + rep + toks[q:]
+            continue
+        cb = match_close(toks, ob)
         nl = text_of(toks[ob:cb + 1]).count("\n")
         rep = [Tok(x.kind, x.text, toks[ob].line) for x in _lex("{ opaque_arm() }")]
         if nl:
@@ -1222,6 +1260,8 @@ def emit_unit(em, repo, u, type_table, log, assumed=False):
     body = rewrite_R1b(body, log)
     body = rewrite_R1c(body, table, log)
     body = rewrite_R3(body, log)
+    if h.get("drop-into-dyn"):
+        body = rewrite_R14(body, log)
     body = rewrite_R8(body, log)
     body = rewrite_R9(body, log)
     body = rewrite_R4(body, log, name)
